@@ -1,6 +1,7 @@
 package main
 
 import (
+	"bytes"
 	"encoding/json"
 	"errors"
 	"fmt"
@@ -19,6 +20,8 @@ type validateArgs struct {
 	GInsts []json.RawMessage   `json:"ginsts"`
 	// ValidateDefaults option
 	ValidateDefaults bool `json:"validateDefaults"`
+	// UseNumber: instances are decoded with json.Decoder.UseNumber (numbers arrive as json.Number)
+	UseNumber bool `json:"usenumber"`
 }
 
 type universe struct {
@@ -163,7 +166,13 @@ func doValidate(ap *validateArgs) (any, error) {
 					return nil, err
 				}
 				var v any
-				if err := json.Unmarshal(txt, &v); err != nil {
+				if a.UseNumber {
+					dec := json.NewDecoder(bytes.NewReader(txt))
+					dec.UseNumber()
+					if err := dec.Decode(&v); err != nil {
+						return nil, fmt.Errorf("instance: %v", err)
+					}
+				} else if err := json.Unmarshal(txt, &v); err != nil {
 					return nil, fmt.Errorf("instance: %v", err)
 				}
 				verdicts = append(verdicts, safeValidate(rs, v))
